@@ -194,6 +194,9 @@ def C04(tier):
            layout_ob("layout-no-overlap-sinkcoloring-5", "Harness_E_C04", edge_lists(5, 4, selfloops=False, connected=True)[::nm(q, 4, 1)], {"P1": [0]},
                      consts={"P2": 0, "P4": 4, "P5": 0, "SZ": 4, "LSFIX": 1},
                      bounds="%s canonical connected trees/forests with N=5 M=4 (every edge order) x SinkColoring (default pipeline); symbolic widths, NodeSpacing" % nm(q, "every 4th of the", "all")),
+           layout_ob("layout-no-overlap-sinkcoloring-6", "Harness_E_C04", edge_lists(6, 5, selfloops=False, connected=True)[::nm(q, 12, 1)], {"P1": [1]},
+                     consts={"P2": 0, "P4": 4, "P5": 0, "SZ": 2}, depth=40,
+                     bounds="%s canonical trees with N=6 M=5 (every orientation and edge order) x SinkColoring; symbolic W,H, spacings" % nm(q, "every 12th of the 6912", "all 6912")),
            layout_ob("layout-no-overlap-nspos", "Harness_E_C04", shapes(3, 2) if q else shapes(3, 3), {"P1": [0, 1]},
                      consts={"P2": 0, "P4": 3, "P5": 0, "SZ": 2, "INTSZ": 1, "MAXSZ": 2}, loop=192, enctimeout=nm(q, 100, 400),
                      bounds="canonical edge lists x NetworkSimplex positioner; symbolic integer W,H,spacings in 0..2"),
